@@ -292,7 +292,7 @@ def gen_switch(rng):
             items += [["junk"], ["ctl", 0]]
         elif m < 0.26:
             items += [["num", "1/1"], ["junk"]]
-    tags = [rng.choice(["none", "none", "same"]) for _ in range(nc + 1)]     # one extra controller never passed
+    tags = [rng.choice(["none", "none", "same", "equal"]) for _ in range(nc + 1)]     # one extra controller never passed
     if rng.random() < 0.08:
         tags[rng.randrange(nc + 1)] = "other"
     table = [rnd_beh(rng) for _ in range(nc + 1)]
@@ -574,7 +574,18 @@ def build(case, pool, log):
 
             ctls = []
             for i, tag in enumerate(case["tags"]):
-                tgt = {"none": None, "same": pool, "other": other}[tag]
+                if tag == "equal":
+                    # a handle that compares equal to the switch's pool but is another object (pools identified
+                    # by value): it is accepted like the pool itself, so it IS the pool for the switch
+                    class Handle(type(other)):
+                        def __eq__(self, o):
+                            return o is pool or o is self
+
+                        def __hash__(self):
+                            return id(pool)
+                    tgt = Handle(0, 0, 0, 0)
+                else:
+                    tgt = {"none": None, "same": pool, "other": other}[tag]
                 beh = case["table"][i]
                 if beh[0] == "linear":
                     c = RecLinear(tgt, low_utilisation=num(beh[1]), high_allocation=num(beh[2]), rate=num(beh[3]))
@@ -589,7 +600,9 @@ def build(case, pool, log):
             for it in case["items"]:
                 items.append(fnum(it[1]) if it[0] == "num" else ctls[it[1]] if it[0] == "ctl" else "junk")
             ctrl = DemandSwitch(pool, ctls[case["default"]], *items, interval=num(case["itv"]))
-            info["on_target"] = [c.target is pool for c in ctls]
+            used = {case["default"]} | {it[1] for it in case["items"] if it[0] == "ctl"}
+            # (a controller the switch never got keeps the handle it was built with: that handle stands for the pool)
+            info["on_target"] = [c.target is pool or (i not in used and case["tags"][i] == "equal") for i, c in enumerate(ctls)]
         else:
             raise ValueError(kind)
     except (AssertionError, ValueError, TypeError, InvariantError) as e:
@@ -851,7 +864,7 @@ def _ctor(case):
         return "(KRelative %s)" % " ".join(cQ(un(x)) for x in case["args"])
     if k == "stepwise":
         return "(KStepwise %s %s %s)" % (cnat(case["base"]), clist(_entry(t, i) for t, i in case["rules"]), cQ(un(case["itv"])))
-    tags = clist({"none": "TNone", "same": "TSame", "other": "TOther"}[t] for t in case["tags"])
+    tags = clist({"none": "TNone", "same": "TSame", "equal": "TSame", "other": "TOther"}[t] for t in case["tags"])
     items = clist("(SNum %s)" % cQ(un(it[1])) if it[0] == "num" else "(SCtl %s)" % cnat(it[1]) if it[0] == "ctl" else "SJunk"
                   for it in case["items"])
     return "(KSwitch %s %s %s %s)" % (tags, cnat(case["default"]), items, cQ(un(case["itv"])))
